@@ -256,6 +256,9 @@ class Body:
                 for i, s in enumerate(self.stmts(b)):
                     lhs = s.get('lhs')
                     if lhs is not None:
+                        # a store through a reference (`(*_x).f = v`) does not redefine the reference `_x`
+                        if len(lhs) > 1 and lhs[1] == '*':
+                            continue
                         d.setdefault(lhs[0], []).append((b, i, len(lhs) == 1))
                     elif 'setdiscr' in s:
                         d.setdefault(s['setdiscr'][0], []).append((b, i, False))
@@ -936,6 +939,8 @@ def canon(e, depth=0):
     if k == 'env':
         return 'env'
     if k == 'field':
+        if e[2] == '0' and e[1][0] == 'variant' and e[1][2] in ('Some', 'Ok', 'Ready', 'Continue'):
+            return canon(e[1][1], d)
         return '%s.%s' % (canon(e[1], d), e[2])
     if k == 'variant':
         return canon(e[1], d) if e[2] in ('Some', 'Ok', 'Ready', 'Continue') else '(%s as %s)' % (canon(e[1], d), e[2])
@@ -949,7 +954,10 @@ def canon(e, depth=0):
             return canon(e[2][0], d)
         if last in ('from', 'into', 'try_into', 'as_bytes_u64', 'as_bytes_usize') and len(e[2]) == 1:
             return canon(e[2][0], d)
-        return '%s(%s)' % (short(e[1]), ', '.join(canon(a, d) for a in e[2]))
+        nm = short(e[1])
+        if nm.endswith('_mut'):
+            nm = nm[:-4]
+        return '%s(%s)' % (nm, ', '.join(canon(a, d) for a in e[2]))
     if k in ('await', 'try'):
         return canon(e[1], d)
     if k in ('poll', 'branch'):
